@@ -125,6 +125,9 @@ MUTANTS = {
                 "    ppath, opath, start, end, padded = path_padding(inpath, start, target_object)\n"},
     ],
     "C11": [
+        {"name": "iteration_in_typed_order", "kind": "sub", "file": CO,
+         "old": "        yield from self._children\n",
+         "new": "        yield from self._sources + self._sensors + self._collections\n"},
         {"name": "revert_fix_getter_copies", "kind": "revert", "commit": "2ae289d"},
         {"name": "revert_fix_add_atomic", "kind": "revert", "commit": "cdaacac"},
         {"name": "revert_fix_remove", "kind": "revert", "commit": "2b80a0e"},
